@@ -41,7 +41,22 @@ TIMES = [0, 999, 1000, 1001, DAY - 1, DAY, 951782400000, 951782400000 + DAY - 1,
          1709164800000, 1709251199999, 1735689599999, 1735689600000,  # 2024-02-29, 2024-12-31 / 2025-01-01
          978307199999, 978307200000, 1700000000000, 1700000000999, Y9999, Y9999 - 999, Y9999 - 1000,
          -62167219200000 + 366 * DAY]  # 0001-01-01
-TZS = ['XYZ-05:30', 'PQR8', 'UTC0']
+# process environments of the harness sub-runs: the event must depend neither on the time zone nor on the
+# system locale (ar_EG / fa_IR have non-ASCII native digits; Qt uses its own CLDR data, no installed locale needed)
+TZS = ['XYZ-05:30|ar_EG.UTF-8', 'PQR8|fa_IR.UTF-8', 'UTC0|C']
+LONG = [8191, 8192, 8193, 20000]
+
+
+def env_of(tz):
+    z, loc = tz.split('|')
+    return {'TZ': z, 'LC_ALL': loc, 'LANG': loc, 'LC_NUMERIC': loc, 'LC_TIME': loc}
+
+
+def long_case(rng, n):
+    c = gen_case(rng, {}, 'wf')
+    c['msg'] = [rng.choice([0x61, 0x62, 0x20, 0xE9, 0x4E2D, 0x22]) for _ in range(n)]
+    c['attrs'] = c['attrs'][:2]
+    return c
 
 
 def gen_case(rng, hist, stream):
@@ -116,6 +131,11 @@ def iso_of(ms):
     return '%04d-%02d-%02dT%02d:%02d:%02dZ' % (d.year, d.month, d.day, d.hour, d.minute, d.second)
 
 
+def _r(x, n=160):
+    t = repr(x)
+    return t if len(t) <= n else t[:n] + '...(%d chars)' % len(t)
+
+
 def python_oracle(c, out_units, obs):
     text = J.pystr(out_units)
     try:
@@ -136,7 +156,8 @@ def python_oracle(c, out_units, obs):
         return 'level', 'level %r, expected %r for QtMsgType %d' % (ev.get('level'), lvl, c['type'])
     text_u = c['msg']
     if not (isinstance(ev.get('message'), dict) and J.same(ev['message'].get('formatted'), J.pystr(text_u))):
-        return 'message', 'message.formatted is %r, expected the message text %r' % (ev.get('message'), J.pystr(text_u))
+        return 'message', 'message.formatted is %s (%s UTF-16 units), expected the message text %s (%d units)' % (
+            _r(ev.get('message')), len(J.units(ev['message'].get('formatted'))) if isinstance(ev.get('message'), dict) and isinstance(ev['message'].get('formatted'), str) else '?', _r(J.pystr(text_u)), len(text_u))
     cat = J.pystr(c['cat'] or [])
     if cat in ('', 'default'):
         if 'logger' in ev:
@@ -145,7 +166,7 @@ def python_oracle(c, out_units, obs):
         return 'logger', 'logger %r, expected %r' % (ev.get('logger'), cat)
     fp = [lvl, cat or 'default', J.pystr(text_u[:100])]
     if not J.same(ev.get('fingerprint'), fp):
-        return 'fingerprint', 'fingerprint %r, expected %r' % (ev.get('fingerprint'), fp)
+        return 'fingerprint', 'fingerprint %s, expected %s' % (_r(ev.get('fingerprint'), 400), _r(fp, 400))
     if len(text_u) > 100 and 0xD800 <= text_u[99] <= 0xDBFF and J.well_formed(text_u):
         obs['fingerprint_cut_splits_surrogate_pair'] = obs.get('fingerprint_cut_splits_surrogate_pair', 0) + 1
     custom = {}
@@ -184,7 +205,7 @@ def event_id_of(out_units):
 
 def run_cases(impl, model, cases, tz):
     lines = [line_of(c) for c in cases]
-    rc, out_i, err = vlib.run_lines(impl, lines, env={'TZ': tz})
+    rc, out_i, err = vlib.run_lines(impl, lines, env=env_of(tz))
     if rc != 0 or len(out_i) != len(lines):
         return None, 'implementation crashed or stopped: rc=%s stderr=%s' % (rc, err[-400:])
     mlines, res = [], []
@@ -221,6 +242,9 @@ def judge(c, r, obs):
 
 def shrink_case(c, still_fails):
     cur = dict(c)
+    t = dict(cur); t['msg'] = [0x61] * len(cur['msg'])
+    if still_fails(t):
+        cur = t
     for field in ('attrs', 'msg'):
         def f(items, field=field):
             t = dict(cur); t[field] = list(items)
@@ -234,14 +258,14 @@ def shrink_case(c, still_fails):
 
 
 def describe(c, r, tz):
-    return {'time_ms': c['ms'], 'type': c['type'], 'message_units': c['msg'], 'message': repr(J.pystr(c['msg'])),
+    return {'time_ms': c['ms'], 'type': c['type'], 'message_length_units': len(c['msg']), 'message_units': c['msg'] if len(c['msg']) <= 300 else c['msg'][:100] + ['...'], 'message': _r(J.pystr(c['msg']), 300),
             'formatted': None if c['fmt'] is None else repr(J.pystr(c['fmt'])),
             'category': None if c['cat'] is None else J.pystr(c['cat']), 'file': None if c['file'] is None else J.pystr(c['file']),
             'function': None if c['fn'] is None else J.pystr(c['fn']), 'line': c['line'],
             'attributes': [[repr(J.pystr(k)), ' '.join(J.value_tokens(v))] for k, v in c['attrs']],
-            'input_line': line_of(c), 'TZ': tz,
-            'implementation_output': repr(J.pystr(J.unhx(r['impl']))) if r else None,
-            'model_output': repr(J.pystr(J.unhx(r['model']))) if r else None}
+            'input_line': line_of(c), 'TZ': tz, 'environment': env_of(tz),
+            'implementation_output': _r(J.pystr(J.unhx(r['impl'])), 3000) if r else None,
+            'model_output': _r(J.pystr(J.unhx(r['model'])), 3000) if r else None, 'case': c}
 
 
 def run():
@@ -253,7 +277,7 @@ def run():
                    'Python json / datetime as independent oracle on the implementation output',
                    'modelled, not verified: QJsonDocument/QJsonObject, QVariant::toString, QDateTime UTC rendering; QUuid::createUuid is outside (format + distinctness observed)']
     chk.assumptions = ['strings are sequences of 16-bit units (theorems) / well-formed UTF-16 (oracle streams); lone surrogates are only diffed',
-                       'message times lie in years 0001..9999 (four-digit ISO years)',
+                       'message times lie in years 0001..9999 (four-digit ISO years)', 'the harness runs under three (TZ, system locale) environments incl. ar_EG / fa_IR; the event must not depend on them',
                        'routed attribute names carry string / integer / bool values; a list, map or null under a routed name is rendered "" by QVariant::toString (counted as an observation)',
                        'a fingerprint cut through a surrogate pair is an observation, not a violation (the cut is in UTF-16 units)',
                        'thread id and Qt version string are read from the run and given to the model; the event id is taken from the output']
@@ -271,15 +295,22 @@ def run():
         except Exception:
             pass
     ncorpus = len(cases)
+    # very long messages (nothing may clip message.formatted): every length in thorough, all four once in quick
+    for k in range(len(TZS) * len(LONG) if thorough else len(LONG)):
+        cases.append(long_case(chk.rng, LONG[k % len(LONG)]))
     for i in range(n):
         r = chk.rng.random()
         cases.append(gen_case(chk.rng, hist, 'wf' if r < 0.85 else ('routed-any' if r < 0.92 else 'malformed')))
     # one harness process per time zone (the event must not depend on it)
     res = [None] * len(cases)
     tz_of = [TZS[i % len(TZS)] for i in range(len(cases))]
+    import concurrent.futures
+    idxs = {tz: [i for i in range(len(cases)) if tz_of[i] == tz] for tz in TZS}
+    with concurrent.futures.ThreadPoolExecutor(len(TZS)) as ex:
+        futs = {tz: ex.submit(run_cases, impl, model, [cases[i] for i in idxs[tz]], tz) for tz in TZS}
     for tz in TZS:
-        idx = [i for i in range(len(cases)) if tz_of[i] == tz]
-        rr, err = run_cases(impl, model, [cases[i] for i in idx], tz)
+        idx = idxs[tz]
+        rr, err = futs[tz].result()
         if rr is None:
             chk.broke('correspondence run failed: ' + err, {'kind': 'infrastructure', 'error': err})
             return chk.finish()
@@ -297,6 +328,13 @@ def run():
         j = judge(t, rr[0], {})
         return j[0] if j else None
 
+    def seq_kind(ts, tz):
+        rr, e = run_cases(impl, model, ts, tz)
+        if rr is None:
+            return None
+        j = judge(ts[-1], rr[-1], {})
+        return j[0] if j else None
+
     diffs, bad = [], []
     for i, (c, r) in enumerate(zip(cases, res)):
         if r['impl'] != r['model']:
@@ -310,10 +348,27 @@ def run():
             continue
         reported.add(kind)
         tz = tz_of[i]
-        small = shrink_case(cases[i], lambda t: kind_of(t, tz) == kind)
-        rr, _ = run_cases(impl, model, [small], tz)
+        before = None
+        if kind_of(cases[i], tz) != kind:
+            # not reproducible on a fresh formatter: look for one earlier event of the same sub-run (same SentryFormatter object)
+            prev = [j for j in idxs[tz] if j < i][-60:]
+            for j in reversed(prev):
+                if seq_kind([cases[j], cases[i]], tz) == kind:
+                    before = cases[j]
+                    break
+        if before is not None:
+            small = shrink_case(cases[i], lambda t: seq_kind([before, t], tz) == kind)
+            before = shrink_case(before, lambda t: seq_kind([t, small], tz) == kind)
+            rr, _ = run_cases(impl, model, [before, small], tz)
+            rr = rr[1:] if rr else None
+        else:
+            small = shrink_case(cases[i], lambda t: kind_of(t, tz) == kind)
+            rr, _ = run_cases(impl, model, [small], tz)
         k2 = judge(small, rr[0], {}) if rr else None
         d = describe(small, rr[0] if rr else None, tz)
+        if before is not None:
+            d['earlier_event_on_the_same_formatter'] = {'input_line': line_of(before), 'case': before,
+                                                        'attributes': [[repr(J.pystr(k)), ' '.join(J.value_tokens(v))] for k, v in before['attrs']]}
         d.update({'kind': kind, 'detail': (k2 or (kind, detail))[1], 'falsified_cases': sum(1 for b in bad if b[1][0] == kind)})
         chk.fail('SentryFormatter output falsifies C18 (%s): %s' % (kind, d['detail']), d, kind=kind)
     # event ids: pairwise distinct over the whole run
@@ -352,7 +407,8 @@ def run():
         'routed_attributes': sum(1 for c in cases for k, _ in c['attrs'] if J.pystr(k) in ROUTES),
         'other_attributes': sum(1 for c in cases for k, _ in c['attrs'] if J.pystr(k) not in ROUTES),
         'duplicate_attribute_names': sum(1 for c in cases if len({tuple(k) for k, _ in c['attrs']}) < len(c['attrs'])),
-        'boundary_times': sum(1 for c in cases if c['ms'] in TIMES), 'time_zones': TZS,
+        'boundary_times': sum(1 for c in cases if c['ms'] in TIMES), 'time_zone|system_locale_of_sub_runs': TZS,
+        'messages_of_8191_or_more_units': sum(1 for c in cases if len(c['msg']) >= 8191),
         'observations': obs, 'generator_histogram': dict(sorted(hist.items())),
     })
     for i in (0, len(cases) // 3, len(cases) - 1):
@@ -364,17 +420,21 @@ def replay(path):
     r = json.load(open(path))['replay']
     if isinstance(r, list):
         r = r[0]
-    line = r.get('input_line')
-    if not line:
+    c = r.get('case')
+    if not c:
         print(json.dumps(r, indent=1)); return 0
     vlib.gen_src(['json', 'sentry'])
     model = vlib.build_model('sentry'); impl = vlib.build_harness('sentry')
-    _, o, _ = vlib.run_lines(impl, [line], env={'TZ': r.get('TZ', 'UTC0')})
-    t = o[0].split(' ')
-    eid = event_id_of(J.unhx(t[3]))
-    _, m, _ = vlib.run_lines(model, [' '.join([line.split(' ', 1)[0], t[1], t[2], J.hx(J.units(eid)) if eid else '-', t[3], line.split(' ', 1)[1]])])
-    print('input          ', line)
-    print('implementation ', repr(J.pystr(J.unhx(t[3]))))
-    print('model          ', repr(J.pystr(J.unhx(m[0].split(' ')[0]))))
-    print('oracle verdict on the implementation output (1 = holds):', m[0].split(' ')[1])
+    tz = r.get('TZ', 'UTC0|C')
+    seq = ([r['earlier_event_on_the_same_formatter']['case']] if r.get('earlier_event_on_the_same_formatter') else []) + [c]
+    res, err = run_cases(impl, model, seq, tz)
+    if res is None:
+        print(err); return 1
+    print('environment    ', env_of(tz))
+    for t, x in zip(seq, res):
+        print('input          ', line_of(t)[:400])
+        print('implementation ', _r(J.pystr(J.unhx(x['impl'])), 3000))
+        print('model          ', _r(J.pystr(J.unhx(x['model'])), 3000))
+        print('oracle verdict on the implementation output (1 = holds):', x['verdict'])
+    print('judgement of the last event:', judge(seq[-1], res[-1], {}))
     return 0
